@@ -337,20 +337,32 @@ func translate(context Context, args ...Result) (Result, error) {
 	}
 
 	src := args[0].String()
-	old := args[1].String()
-	new := args[2].String()
+	old := []rune(args[1].String())
+	new := []rune(args[2].String())
 
-	for i := range old {
-		r := ""
+	// Every character is mapped once, by its first occurrence in the second
+	// argument; it is removed when the third argument has no character at that
+	// position.
+	ret := strings.Builder{}
 
-		if i < len(new) {
-			r = string(new[i])
+	for _, r := range src {
+		pos := -1
+
+		for i := range old {
+			if old[i] == r {
+				pos = i
+				break
+			}
 		}
 
-		src = strings.Replace(src, string(old[i]), r, -1)
+		if pos < 0 {
+			ret.WriteRune(r)
+		} else if pos < len(new) {
+			ret.WriteRune(new[pos])
+		}
 	}
 
-	return String(src), nil
+	return String(ret.String()), nil
 }
 
 func boolean(context Context, args ...Result) (Result, error) {
